@@ -223,10 +223,27 @@ def directed_scns(tier):
     simple("many", [{"name": "n", "type": "uint"}, {"name": "a", "type": "array", "prefix": 2, "store": 0}],
            [{"values": {"n": {"u": j * 1000003 % (1 << 40)}, "a": {"a": list(b"k%06d" % j)}}} for j in range(1200 if tier == "quick" else 70000)],
            stores=("plain",))
-    # a store whose tail exceeds the 16-bit size of a sized offset (F4): creation must fail or read back right
-    if tier == "thorough":
-        simple("bigtail", [{"name": "a", "type": "array", "prefix": 0, "store": 0}],
-               [{"values": {"a": {"a": list(b"%05d" % j)}}} for j in range(33000)], stores=("indexed",), expect="any")
+    # references between entries of a sorted store: the largest referenced position crosses a width boundary only once sorted
+    for n_, nref in ((400, 60), (300, 300), (70000 if tier == "thorough" else 1200, 50)):
+        ents = [{"values": {"k": {"u": (n_ - j) * 5}, "lnk": {"r": j % nref}, "n": {"u": j}}} for j in range(n_)]
+        out.append({"kind": "entries", "id": "refsort%d" % n_, "stores": ["plain"],
+                    "schema": {"common": [{"name": "k", "type": "uint"}, {"name": "lnk", "type": "ref"}, {"name": "n", "type": "uint"}], "variants": [], "sort": ["k"]},
+                    "entries": ents, "indexes": [{"name": "main", "offset": 0, "count": n_}], "origin": "directed", "expect": "ok",
+                    "read_stride": 1 if n_ <= 400 else 37})
+    # many indexes over one store (get_index_from_name walks them), windows of every kind, index keys and free data
+    ents = [{"values": {"n": {"u": j * j}}} for j in range(40)]
+    idxs = []
+    for j in range(60):
+        o = (j * 7) % 41
+        idxs.append({"name": "idx-%02d-%s" % (j, "x" * (j % 9)), "offset": o, "count": (j * 3) % (41 - o), "free_data": [j, 0, 255, j ^ 0x5A], "index_key": j % 256})
+    out.append({"kind": "entries", "id": "manyidx", "stores": ["plain"], "schema": {"common": [{"name": "n", "type": "uint"}], "variants": [], "sort": None},
+                "entries": ents, "indexes": idxs, "origin": "directed", "expect": "ok", "read_stride": 1})
+    # an indexed value store whose tail (one offset per value) is just below / beyond the 16-bit size of a tail (F4):
+    # below, it reads back exactly; beyond, creation must fail or the store must read back exactly
+    simple("bigtail_fits", [{"name": "a", "type": "array", "prefix": 0, "store": 0}],
+           [{"values": {"a": {"a": list(b"%05d" % j)}}} for j in range(21800)], stores=("indexed",))
+    simple("bigtail", [{"name": "a", "type": "array", "prefix": 0, "store": 0}],
+           [{"values": {"a": {"a": list(b"%05d" % j)}}} for j in range(21900 if tier == "quick" else 33000)], stores=("indexed",), expect="any")
     return out
 
 
@@ -332,8 +349,9 @@ def annotate(s, run, want_dec=False):
             evs.append({"ev": "Index", "scn": sid, "name": e["name"], "res": e["res"], "count": e.get("count", -1),
                         "offset": e.get("offset", -1), "declCount": d["count"], "declOffset": d["offset"]})
         elif e["ev"] == "Read":
-            r = {"ev": "Read", "scn": sid, "index": e["index"], "i": min(e["i"], 2 ** 31 - 1), "res": e["res"], "variant": "", "values": {}}
+            r = {"ev": "Read", "scn": sid, "index": e["index"], "i": min(e["i"], 2 ** 31 - 1), "res": e["res"], "variant": "", "values": {}, "typed": "same"}
             if e["res"] == "ok" and "entry" in e:
+                r["typed"] = e.get("typed", "same")     # the typed property builders against the generic one
                 r["variant"] = e["entry"]["variant"] or ""
                 r["values"] = {n: enc(v) for n, v in e["entry"]["values"].items()}
             evs.append(r)
@@ -476,7 +494,7 @@ def run(prop, tier):
         scns.append(scn_from_mc(b, k, tag.replace("MC_EntryStore_", "")))
     nrand = 120 if tier == "quick" else 2500
     for k in range(nrand):
-        scns.append(random_scn(rng, k, big=(k % 40 == 39), sorted_p=0.15))
+        scns.append(random_scn(rng, k, big=(k % 40 == 39), sorted_p=0.15, refs=(k % 4 == 0)))
     scns += directed_scns(tier)
     run_and_validate(rep, prop, tier, scns, binary)
     rep.cov["rule"] = ("scenarios = final states of the exhaustive configurations of MC_EntryStore (integer / array / variant columns, "
